@@ -288,7 +288,9 @@ namespace Pistache::Http::Mime
     // kept as written, the quality and the parameters are written anew.
     void MediaType::refreshRaw()
     {
-        if (raw_.empty())
+        // (a text that was only stored - MediaType(std::string) does not parse by default -
+        // is left as it is: its parameters are not known here)
+        if (raw_.empty() || top_ == Type::None)
             return;
         std::string text = raw_.substr(0, raw_.find_first_of("; "));
         if (q_.has_value())
